@@ -701,6 +701,7 @@ func (h *history) runFan(key func(b int) string) {
 		return false
 	}
 	// delete the ordinary bytes first, in random order
+	regrown := false
 	order := r.Perm(len(in))
 	for _, i := range order {
 		b := in[i]
@@ -712,7 +713,8 @@ func (h *history) runFan(key func(b int) string) {
 		if n := len(inSet); n == 38 || n == 37 || n == 36 || n == 13 || n == 12 || n == 11 || n == 7 {
 			check()
 		}
-		if len(inSet) == 30 && r.Intn(2) == 0 {
+		if len(inSet) == 30 && !regrown {
+			regrown = true
 			// re-grow across the 48/49 boundary once more
 			for _, nb := range r.Perm(256) {
 				if len(inSet) >= 52 {
